@@ -360,6 +360,9 @@ def run(repo, rep, tier):  # noqa: F811 -- round-5 shape rules appended to the r
     if getattr(rep, "borrowed", False):
         return
     from ..core import round5 as _r5
+    from ..core.report import Only as _O5
+    from ..core import helper_contracts as _hcb
+    _hcb.report(repo, rep, "R09.5", _hcb.discriminator_lookup(repo), "mashumaro.core.meta.code.builder::CodeBuilder.get_discriminator")
     _r5.annotation_scans(repo, rep, "R09.8")
     rep.floor("R09.8", 20)
 
@@ -367,3 +370,6 @@ def run(repo, rep, tier):  # noqa: F811 -- round-5 shape rules appended to the r
 _ADDR5B = ' Borrowed: R09.8: isinstance tests for the Annotated markers (Alias, Discriminator, JSON Schema constraints) are applied to the variable of a scan over the whole metadata sequence, so a marker is honoured at any position.'
 EXPLANATION += _ADDR5B
 LEVEL_TEXT += _ADDR5B
+_ADDR5D = " Borrowed: R09.5 (get_discriminator(look_in_parents) walks the whole MRO through each class's own Config)."
+EXPLANATION += _ADDR5D
+LEVEL_TEXT += _ADDR5D
